@@ -408,6 +408,23 @@ def check(ck):
             ck.ob(R3, prop.qual + "::during-construction", okp, "cluster_name of a stub can be read while its reference is being built" if okp else
                   "FunctionReference.__init__ reads memento_fn.cluster_name when no cluster is given, but the stub's property "
                   "dereferences self._fn_reference, which is still None: default-cluster external references raise AttributeError", A.loc(prop, prop.node))
+    # (d) an external reference is a valid answer wherever a stored reference is decoded: nothing
+    # on the decode path raises because a reference is external
+    for modname in ("serialization", "reference", "storage_base"):
+        for fi_ in ck.repo.module(modname).all_funcs():
+            for r_ in [n for n in A.walk_body(fi_.node) if isinstance(n, ast.Raise)]:
+                fx = FA(ck, fi_)
+                g = fx.enclosing(r_, ast.If)
+                if g is not None and fx.inside(r_, g) and any(r_ is x or fx.inside(r_, x) for x in g.body) and \
+                        any(isinstance(n, ast.Attribute) and n.attr == "external" for n in ast.walk(g.test)):
+                    ck.ob(R3, fx.key(None, "external-accepted"), False,
+                          "`raise` under `%s`: a stored entry that mentions a function which has since been edited or removed (an external reference) "
+                          "can no longer be decoded, so the entry stops being served / listings raise" % A.short(g.test, 60), fx.where(r_))
+    da = FA(ck, "serialization.MementoCodec.decode_arg")
+    rz = [r_ for r_ in da.stmts(ast.Raise) if isinstance(r_.exc, ast.Call) and A.call_attr(r_.exc) == "FunctionNotFoundError"]
+    okd = len(rz) == 1 and da.enclosing(rz[0], ast.If) is not None and A.norm(da.enclosing(rz[0], ast.If).test) == "fn_reference.memento_fn is None"
+    ck.ob(R3, da.key(None, "function-argument-decoding"), okd, "a function-valued argument is refused only when no function object (not even a stub) exists" if okd else
+          "decode_arg refuses function references under another condition than `memento_fn is None`", da.where())
     # (c) metadata source treats unresolvable functions as absent; memory backend likewise
     gm = FA(ck, "storage_base.DataSourceMetadataSource.get_mementos")
     rm = gm.one(gm.calls("_read_memento"), "_read_memento call")
